@@ -235,6 +235,24 @@ impl<'a> Run<'a> {
                             return;
                         }
                     }
+                    if got == want && !want.is_empty() && self.rep.count("c07/range_compared") % 5 == 1 {
+                        // advancing the iterator other than by next() walks the same window
+                        let n = (self.rep.count("c07/range_compared") as usize / 5) % (want.len() + 1);
+                        let (nth, skipped, stepped, last, count) = with_view(app, path, access, |v| {
+                            (
+                                v.range(s.as_deref(), e.as_deref(), order).nth(n),
+                                v.range(s.as_deref(), e.as_deref(), order).skip(n).collect::<Vec<_>>(),
+                                v.range(s.as_deref(), e.as_deref(), order).step_by(2).collect::<Vec<_>>(),
+                                v.range(s.as_deref(), e.as_deref(), order).last(),
+                                v.range(s.as_deref(), e.as_deref(), order).count(),
+                            )
+                        });
+                        self.rep.bump("c07/iterator_adaptors_compared");
+                        if nth != want.get(n).cloned() || skipped != want.iter().skip(n).cloned().collect::<Vec<_>>() || stepped != want.iter().step_by(2).cloned().collect::<Vec<_>>() || last != want.last().cloned() || count != want.len() {
+                            self.fail(format!("view-range-iterator-advanced-by-nth-skip-or-step-differs:{}", class), format!("path {:?} range({:?},{:?},{:?}) advanced with nth({}) / skip / step_by / last / count does not walk the window", show_path(path), s.as_ref().map(|x| short(x)), e.as_ref().map(|x| short(x)), order, n));
+                            return;
+                        }
+                    }
                     if got != want {
                         let bound_class = match (&s, &e) {
                             (None, None) => "unbounded",
